@@ -6,7 +6,7 @@ namespace PyGql.Parse
 open PyGql PyGql.Ast PyGql.Spec
 
 theorem dispatch_def (fl : Flags) (fuel : Nat) (desc : Option StringValue) (kw : Text) (ts : List Tok) (l : Tok)
-    (sh : HeadShape desc kw ts) :
+    (sh : HeadShape desc kw ts) (hkw : kw ∈ Generated.ParserTables.schemaDefinitionsKeywords) :
     parseTypeSystemDefinition fl fuel ⟨ts, l⟩ =
       (if kw = K.schema then parseSchemaDefinition fl fuel
        else if kw = K.scalar then parseScalarTypeDefinition fl fuel
@@ -15,17 +15,25 @@ theorem dispatch_def (fl : Flags) (fuel : Nat) (desc : Option StringValue) (kw :
        else if kw = K.union then parseUnionTypeDefinition fl fuel
        else if kw = K.enum_ then parseEnumTypeDefinition fl fuel
        else if kw = K.input then parseInputObjectTypeDefinition fl fuel
-       else if kw = K.directive then parseDirectiveDefinition fl fuel
-       else fail "Unexpected token") ⟨ts, l⟩ := by
+       else parseDirectiveDefinition fl fuel) ⟨ts, l⟩ := by
+  simp only [Generated.ParserTables.schemaDefinitionsKeywords, List.mem_cons, List.mem_nil_iff, or_false] at hkw
   cases desc with
   | none =>
     obtain ⟨k, tl, rfl, hk, hv⟩ := sh
-    simp [parseTypeSystemDefinition, bind_eq, peek_cons, pure_eq, hk, hv, ite_app]
+    rcases hkw with rfl | rfl | rfl | rfl | rfl | rfl | rfl | rfl <;>
+      simp [parseTypeSystemDefinition, bind_eq, peek_cons, pure_eq, hk, hv, ite_app, K.schema, K.scalar, K.type_,
+        K.interface_, K.union, K.enum_, K.input, K.directive]
   | some sv =>
     obtain ⟨s, k, tl, rfl, hs, hk, hv⟩ := sh
-    simp [parseTypeSystemDefinition, bind_eq, peek_cons, peek2_cons, hs, hk, hv, ite_app]
+    rcases hkw with rfl | rfl | rfl | rfl | rfl | rfl | rfl | rfl <;>
+      simp [parseTypeSystemDefinition, bind_eq, peek_cons, peek2_cons, hs, hk, hv, ite_app, K.schema, K.scalar, K.type_,
+        K.interface_, K.union, K.enum_, K.input, K.directive]
 
-theorem dispatch_ext (fl : Flags) (fuel : Nat) (kw : Text) (ts : List Tok) (l : Tok) (sh : ExtShape kw ts) :
+/-- the keywords after `extend` -/
+def extKeywords : List Text := [K.schema, K.scalar, K.type_, K.interface_, K.union, K.enum_, K.input]
+
+theorem dispatch_ext (fl : Flags) (fuel : Nat) (kw : Text) (ts : List Tok) (l : Tok) (sh : ExtShape kw ts)
+    (hkw : kw ∈ extKeywords) :
     parseTypeSystemExtension fl fuel ⟨ts, l⟩ =
       (if kw = K.schema then parseSchemaExtension fl fuel
        else if kw = K.scalar then parseScalarTypeExtension fl fuel
@@ -33,10 +41,12 @@ theorem dispatch_ext (fl : Flags) (fuel : Nat) (kw : Text) (ts : List Tok) (l : 
        else if kw = K.interface_ then parseInterfaceTypeExtension fl fuel
        else if kw = K.union then parseUnionTypeExtension fl fuel
        else if kw = K.enum_ then parseEnumTypeExtension fl fuel
-       else if kw = K.input then parseInputObjectTypeExtension fl fuel
-       else fail "Unexpected token") ⟨ts, l⟩ := by
+       else parseInputObjectTypeExtension fl fuel) ⟨ts, l⟩ := by
+  simp only [extKeywords, List.mem_cons, List.mem_nil_iff, or_false] at hkw
   obtain ⟨e, k, tl, rfl, _, _, hk, hv⟩ := sh
-  simp [parseTypeSystemExtension, bind_eq, peek2_cons, hk, hv, ite_app]
+  rcases hkw with rfl | rfl | rfl | rfl | rfl | rfl | rfl <;>
+    simp [parseTypeSystemExtension, bind_eq, peek2_cons, hk, hv, ite_app, K.schema, K.scalar, K.type_,
+      K.interface_, K.union, K.enum_, K.input]
 
 /-- the keyword of a type-system definition / extension -/
 def defKeyword : Definition → Text
@@ -136,6 +146,9 @@ theorem defKeyword_schema (d : Definition) (hx : isTypeSystem d = true) (he : is
     defKeyword d ∈ Generated.ParserTables.schemaDefinitionsKeywords := by
   cases d <;> first | (simp only [defKeyword]; decide) | (simp [isTypeSystem, isExtension] at hx he)
 
+theorem defKeyword_ext (d : Definition) (he : isExtension d = true) : defKeyword d ∈ extKeywords := by
+  cases d <;> first | (simp only [defKeyword]; decide) | (simp [isExtension] at he)
+
 /-- layer 4, completeness: both type-system dispatchers -/
 theorem tsComplete (fl : Flags) (fuel : Nat) : TSComplete fl fuel := by
   refine ⟨?_, ?_, ?_⟩
@@ -157,7 +170,7 @@ theorem tsComplete (fl : Flags) (fuel : Nat) : TSComplete fl fuel := by
         rcases hs with hs | hs <;> simp [hs]
   · intro d l l' ts rest hx he w hf h hfol
     obtain ⟨desc, sh⟩ := defShape fl d l ts _ hx he h
-    rw [dispatch_def fl fuel desc _ ts l sh]
+    rw [dispatch_def fl fuel desc _ ts l sh (defKeyword_schema d hx he)]
     cases d with
     | schemaDefinition ds ops loc =>
       simpa [defKeyword] using parseSchemaDefinition_complete fl fuel ds ops loc l l' ts rest w hf h hfol
@@ -185,7 +198,7 @@ theorem tsComplete (fl : Flags) (fuel : Nat) : TSComplete fl fuel := by
     | _ => simp [isTypeSystem, isExtension] at hx he
   · intro d l l' ts rest hx he w hf h hfol
     have sh := extShape fl d l ts _ he h
-    rw [dispatch_ext fl fuel _ ts l sh]
+    rw [dispatch_ext fl fuel _ ts l sh (defKeyword_ext d he)]
     cases d with
     | schemaExtension ds ops loc =>
       simpa [defKeyword] using parseSchemaExtension_complete fl fuel ds ops loc l l' ts rest w hf h hfol
